@@ -229,6 +229,7 @@ fn apply(entry: &crate::Entry, meta: &Meta, ref_prog: &Program, init: &Db, ops: 
 }
 
 pub fn run_history(group: &Group, init: &Db, ops: &[Op]) -> HistOutcome {
+   set_current(vec![group.base.clone()], init, Some(serde_json::to_string(ops).unwrap_or_default()));
    let mut out = HistOutcome {
       failures: vec![],
       runs: 0,
